@@ -179,6 +179,14 @@ MODULE_CALL_ATTRS = {'activation', 'conv', 'convolution', 'convolution0', 'convo
                      'transformations_1', 'transformations_2', 'up', 'sv_kernel_generation', 'cvvdp', 'fvvdp', 'blur', 'predict',
                      'LearnedPerceptualImagePatchSimilarity', 'propagator', 'light_propagation'}
 
+# ------------------------------------------------------------------ parameter kinds the docstrings do not give
+# function -> {parameter: (kind, justification)}
+PARAM_KIND_OVERRIDES = {
+    'odak.learn.perception.metameric_loss_uniform.MetamericLossUniform.calc_statsmaps': {
+        'pooling_size': ('scalar', 'undocumented helper; __call__ passes self.pooling_size, documented in __init__ as '
+                                   '"pooling_size : int"; `curr_pooling_size /= 2` therefore rebinds a number')},
+}
+
 # ------------------------------------------------------------------ names of odak functions the checker rejects
 # (a call that cannot be resolved statically and whose name is listed here is treated as writing its arguments;
 #  harness/props/c20.py checks on every run that this set covers every rejected function)
